@@ -575,6 +575,14 @@ func verifRuled(kind int) *schema_j5pb.Field {
 		if list {
 			t.Key.ListRules = &list_j5pb.KeyRules{}
 		}
+	case *schema_j5pb.Field_Any:
+		if rules {
+			t.Any.OnlyDefined = true
+			t.Any.Types = []string{"a.v1.Thing"}
+		}
+		if list {
+			t.Any.ListRules = &list_j5pb.AnyRules{}
+		}
 	case *schema_j5pb.Field_Object:
 		if rules {
 			t.Object.Rules = &schema_j5pb.ObjectField_Rules{}
@@ -1864,7 +1872,7 @@ func HarnessSchemaReadBack() {
 	// recorded findings (only honoured while listed as open in known_findings.json)
 	verifKnownClass("c04-map-value-annotations", card == 2)
 	verifKnownClass("c04-key-format-not-carried", kind == fKey)
-	verifKnownClass("c04-array-item-ext-overwritten", card == 1 && (kind == fKey || kind == fDate || kind == fDecimal))
+	verifKnownClass("c04-array-item-ext-overwritten", card == 1 && (kind == fKey || kind == fDate || kind == fDecimal || kind == fAny))
 	// representation-only differences: the key schema of a compiled map is
 	// always "string" (not declared in the source), and an array/map ext
 	// without any value is the same as no ext
@@ -2030,10 +2038,13 @@ func HarnessExportImport() {
 	case 2:
 		f = &schema_j5pb.Field{Type: &schema_j5pb.Field_Map{Map: &schema_j5pb.MapField{ItemSchema: f}}}
 	}
-	withInfo := ndBool("enumInfo")
+	withInfo, withOptionInfo := ndBool("enumInfo"), ndBool("enumOptionInfo")
 	enum := &schema_j5pb.Enum{Name: "Kind", Description: "the kinds", Options: []*schema_j5pb.Enum_Option{{Name: "ONE", Description: "first"}, {Name: "TWO"}}}
 	if withInfo {
 		enum.Info = []*schema_j5pb.Enum_OptionInfoField{{Name: "colour", Label: "Colour", Description: "of it"}}
+	}
+	if withOptionInfo {
+		// option info is not tied to declared info fields, neither in j5s nor in proto
 		enum.Options[0].Info = map[string]string{"colour": "red"}
 	}
 	thing := &schema_j5pb.Object{Name: "Thing", Description: "a thing", Properties: []*schema_j5pb.ObjectProperty{
